@@ -55,6 +55,7 @@ def job_history(args):
     set_schedule(None)
     slots = {}
     outs = []
+    shared_kwargs = {}
     probes = {"nonempty_mapping": 0, "crash_fired": 0, "crash_in_generate_code": 0}
     for op in args["ops"]:
         kind = op["op"]
@@ -79,9 +80,21 @@ def job_history(args):
 
             forced = bool(op.get("force_nested")) and not slot["tree"] and op["structure"] == "nested"
 
-            def go(op=op, slot=slot, forced=forced):
+            kwargs_obj = None
+            if op.get("kw_id") is not None:
+                # the caller re-uses ONE class_generator_kwargs dict object for several calls (the same content every
+                # time); a pristine process builds it fresh.
+                from ..pipeline import gen_kwargs
+                key = op["kw_id"]
+                if key not in shared_kwargs:
+                    # one dict for every framework, 'meta' included when set: generators that do not accept an option
+                    # raise TypeError (an outcome like any other, the same in a pristine process)
+                    shared_kwargs[key] = gen_kwargs(dict(op["options"], framework="attrs"))
+                kwargs_obj = shared_kwargs[key]
+
+            def go(op=op, slot=slot, forced=forced, kwargs_obj=kwargs_obj):
                 structure = op["structure"] if (slot["tree"] or op["structure"] == "flat" or forced) else "flat"
-                return render(slot["reg"], op["options"], structure, op["framework"])
+                return render(slot["reg"], op["options"], structure, op["framework"], kwargs_obj=kwargs_obj)
         if op.get("crash_at") is not None:
             tr = CrashTracer(op["crash_at"], watch=("generate_code",), relative_to=op.get("crash_in"))
             with tr:
@@ -128,6 +141,9 @@ def make_history(seed, i, max_ops=4):
         slot_w[1]["options"]["convert_unicode"] = not slot_w[0]["options"]["convert_unicode"]
     ops = []
     generated = []
+    # some histories re-use one options object (same content) for all their renders
+    share_kwargs = rng.random() < 0.3
+    shared_render_options = None
 
     def gen_op(s, crash=False):
         w = slot_w[s]
@@ -149,6 +165,12 @@ def make_history(seed, i, max_ops=4):
                                            {"StringSerializable": {"use_actual_type": True}}])
         op = {"op": "RENDER", "slot": s, "framework": rng.choice(ALL_FRAMEWORKS), "structure": rng.choice(["flat", "nested"]),
               "options": o}
+        if share_kwargs:
+            nonlocal shared_render_options
+            if shared_render_options is None:
+                shared_render_options = {k: v for k, v in o.items() if k != "types_style"}
+            op["options"] = dict(shared_render_options, convert_unicode=o["convert_unicode"], preamble=o["preamble"])
+            op["kw_id"] = int(o["convert_unicode"])
         if crash:
             op["crash_at"] = rng.choice([1, 3, 10, 30, 60, 100, 200, 400, 800, 1500, 4000])
         if op["structure"] == "nested" and rng.random() < 0.5:
